@@ -182,6 +182,72 @@ def replay_h_stats_two_clauses(**kw):
     return None, "no concrete driver for this shape"
 
 
+def h_stats_two_columns_partial(num_rows: int, min_a: int, max_a: int, xa: int, has_b: bool, lo_b: bool, hi_b: bool,
+                                min_b: int, max_b: int, xb: int, op1: int, v1: int, op2: int, v2: int) -> bool:
+    """
+    pre: 1 <= num_rows and 0 <= op1 < 7 and 0 <= op2 < 7
+    pre: min_a <= xa <= max_a and min_b <= xb <= max_b
+    post: __return__
+    """
+    # column a carries min/max; column b carries a Statistics object with only some (or none) of its bounds, or no
+    # statistics at all - the shapes fastparquet itself writes for columns outside stats=[...] / non-numeric columns
+    rg = _mk_rg(num_rows, [("a", True, 0, min_a, max_a),
+                           ("b", has_b, 0, min_b if lo_b else None, max_b if hi_b else None)])
+    filters = [("a", OPS[op1], v1), ("b", OPS[op2], v2)]
+    if not (row_pred(OPS[op1], xa, v1) and row_pred(OPS[op2], xb, v2)):
+        return True
+    return not api.filter_out_stats(rg, filters, SchemaShim())
+
+
+def h_stats_b_without_bounds(num_rows: int, min_a: int, max_a: int, xa: int, xb: int, op1: int, v1: int, op2: int,
+                             v2: int, swap: bool) -> bool:
+    """
+    pre: 1 <= num_rows and 0 <= op1 < 7 and 0 <= op2 < 7 and min_a <= xa <= max_a
+    post: __return__
+    """
+    # column a with min/max, column b with a Statistics object that has no bounds (either column order)
+    cols = [("a", True, 0, min_a, max_a), ("b", True, 0, None, None)]
+    if swap:
+        cols.reverse()
+    rg = _mk_rg(num_rows, cols)
+    filters = [("a", OPS[op1], v1), ("b", OPS[op2], v2)]
+    if not (row_pred(OPS[op1], xa, v1) and row_pred(OPS[op2], xb, v2)):
+        return True
+    return not api.filter_out_stats(rg, filters, SchemaShim())
+
+
+def replay_h_stats_b_without_bounds(num_rows, min_a, max_a, xa, xb, op1, v1, op2, v2, swap):
+    return replay_h_stats_two_columns_partial(num_rows, min_a, max_a, xa, True, False, False, xb, xb, xb, op1, v1,
+                                              op2, v2)
+
+
+def replay_h_stats_two_columns_partial(num_rows, min_a, max_a, xa, has_b, lo_b, hi_b, min_b, max_b, xb, op1, v1,
+                                       op2, v2):
+    """real file: column a with statistics, column b written without min/max (stats=['a'])"""
+    import tempfile, os, shutil
+    import pandas as pd
+    import fastparquet
+    if has_b and (lo_b or hi_b):
+        return None, "partial bounds on b cannot be produced by the concrete driver"
+    df = pd.DataFrame({"a": [xa, min_a, max_a], "b": [xb, min_b, max_b]})
+    d = tempfile.mkdtemp(prefix="c05-")
+    try:
+        fn = os.path.join(d, "t.parq")
+        fastparquet.write(fn, df, stats=["a"])
+        filters = [("a", OPS[op1], v1), ("b", OPS[op2], v2)]
+        try:
+            out = fastparquet.ParquetFile(fn).to_pandas(filters=filters)
+        except Exception as ex:
+            return True, "filtered read raises %s: %s" % (type(ex).__name__, str(ex)[:80])
+        present = ((out["a"] == xa) & (out["b"] == xb)).any() if len(out) else False
+        if not present:
+            return True, "row (a=%r, b=%r) satisfies %r but the row group was pruned (a has min/max statistics, b " \
+                         "has none)" % (xa, xb, filters)
+        return False, "row returned"
+    finally:
+        shutil.rmtree(d, ignore_errors=True)
+
+
 def h_stats_in_clause(num_rows: int, nulls: int, vmin: Optional[int], vmax: Optional[int], x: int,
                       values: List[int]) -> bool:
     """
